@@ -147,13 +147,15 @@ def signature(rule, scn_key, schedule, obs):
     phases = []
     for t in obs.timeline:
         if t[0] == "inject":
-            phases.append(f"{t[1].split(':')[0]}@{t[3]}/{t[4]}")
+            phases.append(f"{t[1].split(':')[0]}@{t[3]}/{t[4]}/{t[5] if len(t) > 5 else '?'}")
     for i, k in sorted(schedule.get("faults", {}).items()):
         for li, dev, op, _a, _s in obs.ledger:
             if li == int(i):
                 phases.append(f"fault-{k}@{dev}.{op}")
     dec = "".join(d[0] for d in schedule.get("decisions", []))
-    return f"{rule}|{scn_key}|{'+'.join(phases) or '-'}|{dec or '-'}"
+    # request-driven state changes that happened while _run was not in its message loop
+    eff = [f"{t[1]}@{t[3]}" for t in obs.timeline if t[0] == "state" and len(t) > 3 and t[3] not in ("", "loop")]
+    return f"{rule}|{scn_key}|{'+'.join(phases) or '-'}|{','.join(eff) or '-'}|{dec or '-'}"
 
 
 def execute(scn_key, params, schedule):
